@@ -613,32 +613,49 @@ def run(ctx: Ctx) -> int:
         "steady states by integration: 1e-5 relative + 1e-6 absolute; time courses 1e-5 relative + 1e-7 absolute",
     ]
     q = ctx.quick
-    # ---- mc ------------------------------------------------------------------------------------
-    res = ctx.tlc("ModelDiff.tla", "ModelDiff_quick.cfg" if q else "ModelDiff_thorough.cfg", workers=8)
+    # ---- TLC: model checking, wrong instances, generation ---------------------------------------
+    # quick tier: the nine runs are independent; two at a time with 4 workers each (start-up and the single-threaded
+    # phases of one overlap the search of the other) -- never more than 8 TLC workers in total
+    teeth = (("ModelDiff_symmetric.cfg", "OneSided"), ("ModelDiff_nosur.cfg", "TwoWayEmptyIffAgree"),
+             ("ModelDiff_softoneway.cfg", "SoftEqLaws"))
+    sims = [("ModelDiff_sim11.cfg", 60 if q else 700), ("ModelDiff_sim12.cfg", 40 if q else 500),
+            ("ModelDiff_simlin.cfg", 40 if q else 500)]
+    w = 4 if q else 8
+    jobs = [("mc", lambda: ctx.tlc("ModelDiff.tla", "ModelDiff_quick.cfg" if q else "ModelDiff_thorough.cfg", workers=w)),
+            ("heavy", lambda: ctx.tlc("ModelDiff.tla", "ModelDiff_heavy.cfg" if q else "ModelDiff_heavy_thorough.cfg", workers=w))]
+    jobs += [(cfg, lambda cfg=cfg: ctx.tlc("ModelDiff.tla", cfg, workers=min(w, 4), expect_violation=True)) for cfg, _ in teeth]
+    jobs += [("gen1", lambda: ctx.tlc("ModelDiff.tla", "ModelDiff_gen1.cfg", workers=w))]
+    jobs += [(cfg, lambda cfg=cfg, num=num: ctx.tlc("ModelDiff.tla", cfg, simulate=f"num={num}", depth=12, seed=ctx.seed, workers=w))
+             for cfg, num in sims]
+    if q:
+        from concurrent.futures import ThreadPoolExecutor
+
+        with ThreadPoolExecutor(2) as ex:
+            futs = {name: ex.submit(fn) for name, fn in jobs}
+            out = {name: f.result() for name, f in futs.items()}
+    else:
+        out = {name: fn() for name, fn in jobs}
+    res = out["mc"]
     rep.add_tlc(res, "laws of Diff / SoftEq over every pair within the bounds (SelfEmpty, TwoWayEmptyIffAgree, OneSided, "
                      "Swapped, SoftEqLaws, SoftLibGap, SingleEditLaw)")
     if res.distinct < (15000 if q else 200000) or res.depth < 4:      # vacuity guard (-coverage is prohibitively slow here)
         raise MachineryError(f"vacuity: only {res.distinct} states, depth {res.depth}")
-    res = ctx.tlc("ModelDiff.tla", "ModelDiff_heavy.cfg" if q else "ModelDiff_heavy_thorough.cfg", workers=8)
-    rep.add_tlc(res, "ReportLaws / CompareLaws / ArgsAtAgrees (whole-model evaluation) on the full and linear seeds")
-    for cfg, inv in (("ModelDiff_symmetric.cfg", "OneSided"), ("ModelDiff_nosur.cfg", "TwoWayEmptyIffAgree"),
-                     ("ModelDiff_softoneway.cfg", "SoftEqLaws")):
-        res = ctx.tlc("ModelDiff.tla", cfg, workers=4, expect_violation=True)
+    rep.add_tlc(out["heavy"], "ReportLaws / CompareLaws / ArgsAtAgrees (whole-model evaluation) on the full and linear seeds")
+    for cfg, inv in teeth:
+        res = out[cfg]
         if res.violated != inv:
             raise MachineryError(f"{cfg}: TLC should refute the wrong instance through {inv}, got violated={res.violated}")
         rep.add_tlc(res, f"teeth: wrong implementation-shaped instance refuted ({inv} violated)")
     rep.notes["wrong_instances_refuted"] = ["symmetric", "nosur", "softoneway"]
     # ---- spec -> code --------------------------------------------------------------------------
     pairs = []
-    res = ctx.tlc("ModelDiff.tla", "ModelDiff_gen1.cfg", workers=8)
+    res = out["gen1"]
     rep.add_tlc(res, "gen: every single edit of the menu on every seed, with predictions")
     pairs += res.payloads
     n_single = len(pairs)
     starts = {p["seed"]: p["start"] for p in pairs}
-    sims = [("ModelDiff_sim11.cfg", 60 if q else 700), ("ModelDiff_sim12.cfg", 40 if q else 500),
-            ("ModelDiff_simlin.cfg", 50 if q else 500)]
-    for cfg, num in sims:
-        res = ctx.tlc("ModelDiff.tla", cfg, simulate=f"num={num}", depth=12, seed=ctx.seed, workers=8)
+    for cfg, _num in sims:
+        res = out[cfg]
         rep.add_tlc(res, f"gen: seeded -simulate pairs ({cfg})")
         pairs += res.payloads
     seen = set()
@@ -693,7 +710,7 @@ def run(ctx: Ctx) -> int:
                 raise MachineryError(f"binding self-test failed: tampered prediction ({part}) was not noticed")
         rep.notes["tampered_predictions_noticed"] = len(tampered)
     # ---- code -> spec --------------------------------------------------------------------------
-    nrec = 500 if q else 6000
+    nrec = 400 if q else 6000
     recs = [r for r in pmap(record_pair, [(ctx.seed, j, starts) for j in range(nrec)], chunk=32) if r]
     judged = []
     for r in recs:
@@ -704,7 +721,7 @@ def run(ctx: Ctx) -> int:
         else:
             judged.append(r)
     rnd = random.Random(ctx.seed)
-    tampered_recs = [tamper_record(r, rnd) for r in judged[:40]]
+    tampered_recs = [tamper_record(r, rnd) for r in judged[:60]]
     verdicts = {}
     allr = judged + tampered_recs
     for lo in range(0, len(allr), 2000):
@@ -727,14 +744,17 @@ def run(ctx: Ctx) -> int:
         else:
             rep.mismatch({"record": r}, {"part": "oracle", "what": "recorded answer rejected by TLC", "field": v},
                          classify_record(r, v))
-    rej = sum(1 for t in tampered_recs if verdicts.get(t["id"]) not in ("accept", "unjudged", None))
-    untestable = sum(1 for t in tampered_recs if verdicts.get(t["id"]) == "unjudged")
-    if rej + untestable != len(tampered_recs) or (tampered_recs and rej == 0):
-        raise MachineryError(f"binding self-test failed: {len(tampered_recs) - rej - untestable} tampered records accepted by TLC")
+    # binding self-test (code -> spec): only tampered copies of records TLC accepted say anything
+    of_accepted = [t for t in tampered_recs if verdicts.get(t["id"] - 1_000_000) == "accept"]
+    rej = sum(1 for t in of_accepted if verdicts.get(t["id"]) not in ("accept", "unjudged", None))
+    if rej != len(of_accepted):
+        raise MachineryError(f"binding self-test failed: {len(of_accepted) - rej} tampered records accepted by TLC")
+    if rej < 10 and not rep.violations:
+        raise MachineryError(f"binding self-test: only {rej} tampered records could be tried")
     rep.notes["tampered_records_rejected"] = rej
     rep.notes["records"] = len(recs)
     rep.notes["records_unjudged"] = unjudged
-    if rep.traces < (300 if q else 4000) and not rep.violations:
+    if rep.traces < (250 if q else 4000) and not rep.violations:
         raise MachineryError(f"too few recorded pairs accepted: {rep.traces}")
     return rep.finish()
 
